@@ -63,6 +63,12 @@ Step ==
        /\ IF wellFormed
           THEN Check(e, ex, isBase)
           ELSE PrintT(<<"HARNESS", e.id, "derived call is not the claimed transformation">>)
+       \* the properties of the time-based tests quantify over strictly increasing time axes: a generated call that
+       \* breaks this (rows without a time aside) is a fault of the generator, not a verdict about the code
+       /\ IF e.call.fn \in {"roc", "flat", "att", "speed"} /\ e.call.fn # "none"
+             /\ \E i \in 1..(Len(e.call.t) - 1) : e.call.t[i] # NA /\ e.call.t[i + 1] # NA /\ e.call.t[i] >= e.call.t[i + 1]
+          THEN PrintT(<<"HARNESS", e.id, "time axis of a time-based test is not strictly increasing">>)
+          ELSE TRUE
        /\ IF isBase
           THEN /\ StartL(e.call, e.lenient)
                /\ bobs' = [out |-> e.obs.out, exc |-> e.obs.exc]
